@@ -541,6 +541,82 @@ def _task_hierarchy(task):
     return res
 
 
+def run_many_known(n, via):
+    """a process that knows many interfaces: one is declared locally, then
+    n-1 others become known (declared locally, or learnt by introspecting
+    peers); XML from a peer describing the first one differently still
+    yields the locally declared definition (no replacement asked for), and
+    with replacement the peer's"""
+    from txdbus import interface as I, introspection as X
+    viol = []
+    with fakes.KnownInterfaces():
+        try:
+            mine = I.DBusInterface('org.ex.Mine', I.Method('M', 's', 'u'),
+                                   I.Signal('S', 'i'))
+            theirs = I.DBusInterface('org.ex.Mine', I.Method('M', 'ss', ''),
+                                     I.Method('Extra', '', 's'),
+                                     noRegister=True)
+            xml = X.generateIntrospectionXML('/o', {'/o': make_object(
+                [theirs])})
+            if via == 'declared':
+                for i in range(n - 1):
+                    I.DBusInterface('org.ex.K%d' % i, I.Method('M', '', ''))
+            else:
+                left = n - 1
+                i = 0
+                while left > 0:
+                    k = min(left, 50)
+                    others = [I.DBusInterface('org.ex.K%d' % (i + j),
+                                              I.Method('M', 'y', ''),
+                                              noRegister=True)
+                              for j in range(k)]
+                    X.getInterfacesFromXML(X.generateIntrospectionXML(
+                        '/p', {'/p': make_object(others)}), False)
+                    i += k
+                    left -= k
+            got = [x for x in X.getInterfacesFromXML(xml, False)
+                   if x.name == 'org.ex.Mine']
+            if len(got) != 1 or describe(got[0]) != describe(mine):
+                viol.append(('many-known/%s/local-definition-lost' % via,
+                             'org.ex.Mine declared locally, then %d other '
+                             'interfaces %s; a peer\'s XML describing '
+                             'org.ex.Mine differently, parsed without '
+                             'replacement, gave %r instead of the local %r'
+                             % (n - 1, 'declared' if via == 'declared' else
+                                'learnt from peers',
+                                [describe(g) for g in got], describe(mine))))
+            again = I.DBusInterface.knownInterfaces.get('org.ex.Mine')
+            if again is None or describe(again) != describe(mine):
+                viol.append(('many-known/%s/forgotten' % via,
+                             'after %d other interfaces became known, the '
+                             'locally declared org.ex.Mine is known as %r'
+                             % (n - 1, again and describe(again))))
+            got = [x for x in X.getInterfacesFromXML(xml, True)
+                   if x.name == 'org.ex.Mine']
+            if len(got) != 1 or describe(got[0]) != describe(theirs):
+                viol.append(('many-known/%s/replacement' % via,
+                             'with replacement the peer\'s definition is '
+                             'expected, got %r' % ([describe(g)
+                                                    for g in got],)))
+        except Exception as e:
+            viol.append(('many-known/raises-%s' % type(e).__name__,
+                         '%d known interfaces: %r' % (n, e)))
+    return viol
+
+
+def _task_many_known(task):
+    n, via = task
+    res = core.Result()
+    res.count('states')
+    res.count('transitions', n + 3)
+    res.count('evaluations', 3)
+    res.count('nontrivial')
+    for t, w in run_many_known(n, via):
+        res.violation('%s/%s' % (PROP, t), w,
+                      {'many_known': [n, via]}, size=n)
+    return res
+
+
 def run(ctx):
     pool = sig_pool(ctx.quick)
     ctx.rule = (
@@ -563,7 +639,10 @@ def run(ctx):
         'over adding / re-declaring / deleting methods, signals and '
         'properties, with the XML generated and parsed after every step. A '
         'three-level class hierarchy (each level adding an interface) and a '
-        'plain DBusObject introspected in all 24 orders'
+        'plain DBusObject introspected in all 24 orders. A process knowing '
+        'many interfaces: 127..8193 (thorough 65537) others declared or '
+        'learnt from peers after a local declaration, which must still win '
+        'without replacement'
         % (len(pool), 2 if ctx.quick else 3))
     ctx.assumptions = ['the notification mode after parsing is not compared '
                        '(not in the statement)']
@@ -573,11 +652,18 @@ def run(ctx):
     ctx.map(_task_incremental, [(ctx.quick, i, n) for i in range(n)])
     ctx.map(_task_hierarchy, [ctx.quick])
     ctx.map(_task_names, [ctx.quick])
+    from mcx import scale
+    ns = scale.ladder(8193 if ctx.quick else 65537)
+    ctx.map(_task_many_known, [(k, 'declared') for k in ns]
+            + [(k, 'learnt') for k in ns if k <= 8193])
     ctx.bounds = {'signature_pool': len(pool)}
 
 
 def replay(data):
     res = core.Result()
+    if 'many_known' in data:
+        return [('%s/%s' % (PROP, t), w) for t, w in
+                run_many_known(*data['many_known'])]
     if 'hierarchy' in data:
         res = _task_hierarchy(False)
         return [(s, v['what']) for s, v in res.violations.items()]
